@@ -1140,4 +1140,37 @@ theorem hsOfChoiSparseRaw_sub (B : Basis K d (d * d)) (x y : Mat K (d * d) (d * 
 
 end frob
 
+
+/-! ## extension round 3: composition of basis changes, column-major orthonormality, Hermiticity -/
+section ext3
+variable {K : Type} [CommRing K] [StarRing K] {d n : Nat}
+
+/-- `U_{S←T} U_{T←F} = U_{S←F}` when the intermediate basis `T` is complete -/
+theorem transU_comp (F T S : Basis K d n) (hT : Complete T) :
+    (transU T S).toM * (transU F T).toM = (transU F S).toM := by
+  rw [toM_transU, toM_transU, toM_transU]
+  calc (basisConj S).toM * (basisT T).toM * ((basisConj T).toM * (basisT F).toM)
+      = (basisConj S).toM * ((basisT T).toM * (basisConj T).toM) * (basisT F).toM := by
+        simp only [Matrix.mul_assoc]
+    _ = _ := by rw [(complete_iff T).1 hT, Matrix.mul_one]
+
+theorem swapIdx_injective {d : Nat} : Function.Injective (swapIdx : Fin (d * d) → Fin (d * d)) :=
+  swapIdx_involutive.injective
+
+theorem comp_col_orthonormal (d : Nat) : Orthonormal (compBasis d false : Basis K d (d * d)) := by
+  intro a b
+  rw [compBasis_col_get, compBasis_col_get, comp_orthonormal d (swapIdx a) (swapIdx b)]
+  by_cases h : a = b
+  · subst h; simp
+  · have : swapIdx a ≠ swapIdx b := fun e => h (swapIdx_injective e)
+    simp [h, this]
+
+/-- `B_α ⊗ conj B_β` is Hermitian when the basis is -/
+theorem bbcEntry_hermitian (B : Basis K d (d * d)) (hB : HermitianBasis B) (al be i j : Fin (d * d)) :
+    star (bbcEntry B al be j i) = bbcEntry B al be i j := by
+  simp only [bbcEntry, conj_eq_star, star_mul', star_star]
+  rw [hB al (pdiv i) (pdiv j), ← hB be (pmod j) (pmod i)]
+
+end ext3
+
 end QM.C02
